@@ -28,9 +28,7 @@ func init() {
 func c15StateWriters(c *Ctx) {
 	r := c.R.Rule("R6", "K2 (part of C02.R6) an update never rewrites the position: connector.Instance.State has a closed writer set (Source.Ack, SetState, the store decoders) — a config or plugin update through the import leaves it alone", 5)
 	stateF := c.Field(r, pConn, "Instance", "State")
-	c.WhoMayWrite(r, "connector.Instance.State", stateF, []string{
-		pConn + ".(*Source).Ack", pConn + ".(*Service).SetState", pConn + ".(*Store).decode", pConn + ".(*Store).migratePre041", pConn + ".(*Store).PrepareSet",
-	}, nil)
+	stateWriterTable(c, r, stateF)
 }
 
 func runC15(c *Ctx) {
@@ -43,6 +41,8 @@ func runC15(c *Ctx) {
 	c14R6As(c, c.R.Rule("R7", "K6 (= C14.R6) a rename is reversible: pipeline.Service.Update frees the OLD name (read before the config is replaced) and reserves the new one — otherwise importing A → B → A, or rolling back a failed renaming import, is refused", 2))
 	c15R8(c)
 	c15R10(c)
+	c15R11(c)
+	c15R12(c)
 	rollbackSnapshotAs(c, c.R.Rule("R9", "K6/K3 (= C13.R10) a failed live apply leaves the old configuration: the config the in-place rollback re-imports is a snapshot exported before the desired config was committed", 3))
 }
 
@@ -231,6 +231,11 @@ func c15R1(c *Ctx) {
 		{"Processor", "processorToConfig", [2]string{"createProcessorAction", "Do"}, [2]string{"updateProcessorAction", "update"}, "diffProcessorFields", nil,
 			map[string]string{"ID": "identity"}},
 		{"DLQ", "dlqToConfig", [2]string{"createPipelineAction", "Do"}, [2]string{"updatePipelineAction", "update"}, "diffPipelineFields", nil, nil},
+	}
+	for si := range specs {
+		if specs[si].typ == "Processor" {
+			specs[si].immutable = processorRecreateFields(c, r)
+		}
 	}
 	for _, sp := range specs {
 		T := c.Type(r, pProvCfg, sp.typ)
@@ -633,4 +638,147 @@ func posOfBlock(b *ssa.BasicBlock) token.Pos {
 		}
 	}
 	return b.Parent().Pos()
+}
+
+// stateWriterTable: the closed writer set of connector.Instance.State. The one writer outside pkg/connector is the
+// rollback of a failed connector delete (F25), which may only put the deleted connector's own State back.
+func stateWriterTable(c *Ctx, r string, stateF *types.Var) {
+	c.WhoMayWrite(r, "connector.Instance.State", stateF, []string{
+		pConn + ".(*Source).Ack", pConn + ".(*Service).SetState", pConn + ".(*Store).decode", pConn + ".(*Store).migratePre041", pConn + ".(*Store).PrepareSet",
+		pOrch + ".(*ConnectorOrchestrator).Delete", // rollback closure: restored.State = conn.State (checked below and by C14.R8)
+	}, nil)
+	if fn := c.SSA(r, pOrch, "(*ConnectorOrchestrator).Delete"); fn != nil && stateF != nil {
+		for _, lit := range kit.WithAnon(fn) {
+			for _, st := range kit.FieldStores(lit, stateF) {
+				c.R.Check(lit != fn && kit.IsFieldLoad(kit.Unwrap(st.Val), stateF), r, "ConnectorOrchestrator.Delete: the only State it writes is the deleted connector's own, in a rollback closure", c.Pos(st.Pos()), "restored.State = conn.State", "ConnectorOrchestrator.Delete writes a connector position that is not the State of the instance it deleted", true)
+			}
+		}
+	}
+}
+
+// processorRecreateFields: the config.Processor fields whose change makes prepareProcessorActions plan a delete+create
+// instead of an update (the processor counterpart of ConnectorImmutableFields): `oldConfig.F != newConfig.F` guards a
+// return that builds both a deleteProcessorAction and a createProcessorAction.
+func processorRecreateFields(c *Ctx, r string) map[string]bool {
+	out := map[string]bool{}
+	fn := c.SSA(r, pProv, "(actionsBuilder).prepareProcessorActions")
+	T := c.W.LookupType(pProvCfg, "Processor")
+	if fn == nil || T == nil {
+		return out
+	}
+	st := T.Underlying().(*types.Struct)
+	for i := 0; i < st.NumFields(); i++ {
+		f := st.Field(i)
+		edges := kit.CmpEdges(fn, func(b *ssa.BinOp) (bool, bool) {
+			if kit.IsFieldLoad(b.X, f) && kit.IsFieldLoad(b.Y, f) {
+				switch b.Op {
+				case token.NEQ:
+					return true, true
+				case token.EQL:
+					return true, false
+				}
+			}
+			return false, false
+		})
+		for _, e := range edges {
+			del, cre := false, false
+			for _, b := range fn.Blocks {
+				if !(b == e.To || e.To.Dominates(b)) {
+					continue
+				}
+				for _, in := range b.Instrs {
+					if mi, ok := in.(*ssa.MakeInterface); ok {
+						switch {
+						case strings.HasSuffix(mi.X.Type().String(), ".deleteProcessorAction"):
+							del = true
+						case strings.HasSuffix(mi.X.Type().String(), ".createProcessorAction"):
+							cre = true
+						}
+					}
+				}
+			}
+			if del && cre && len(e.To.Preds) == 1 {
+				out[f.Name()] = true
+			}
+		}
+	}
+	return out
+}
+
+// c15R11: F33. The API document decoder produces empty non-nil lists/maps where Export produces nil; the differ must
+// not treat that as a change, or re-applying an identical document is never a no-op (on a running pipeline it is
+// refused as unauthorised, or drains and restarts it for nothing).
+func c15R11(c *Ctx) {
+	r := c.R.Rule("R11", "K6 an empty list is a missing list: every cmp.Equal by which the actions builder decides whether an entity changed is given cmpopts.EquateEmpty()", 3)
+	eq, _ := c.W.ExtObj("github.com/google/go-cmp/cmp", "Equal").(*types.Func)
+	ee, _ := c.W.ExtObj("github.com/google/go-cmp/cmp/cmpopts", "EquateEmpty").(*types.Func)
+	if eq == nil || ee == nil {
+		c.R.Unresolved(r, "cmp.Equal / cmpopts.EquateEmpty")
+		return
+	}
+	for _, name := range []string{"(actionsBuilder).preparePipelineActions", "(actionsBuilder).prepareConnectorActions", "(actionsBuilder).prepareProcessorActions"} {
+		fn := c.SSA(r, pProv, name)
+		if fn == nil {
+			continue
+		}
+		calls := kit.CallsTo(fn, Set(eq))
+		c.R.Check(len(calls) >= 1, r, name+": compares old and new config", c.Pos(fn.Pos()), "cmp.Equal", "no cmp.Equal call found", true)
+		for _, call := range calls {
+			a := call.Common().Args
+			// the "nothing changed" decision: its true edge returns no action
+			noAction := false
+			for _, e := range kit.CondEdges(call.Value(), true) {
+				for _, ret := range kit.Returns(fn) {
+					if (ret.Block() == e.To || e.To.Dominates(ret.Block())) && kit.RetNil(ret, 0) {
+						noAction = true
+					}
+				}
+			}
+			if !noAction {
+				continue
+			}
+			has := len(a) == 3 && kit.DerivesFrom(a[2], func(x ssa.Value) bool {
+				cl, ok := x.(*ssa.Call)
+				return ok && kit.CalleeOf(cl.Common()) == ee
+			})
+			c.R.Check(has, r, name+": the comparison equates empty and nil", c.Pos(call.Pos()), "cmpopts.EquateEmpty()", "cmp.Equal is called without cmpopts.EquateEmpty(): a configuration with an empty (non-nil) processor list or settings map — what the API document decoder produces — never equals the exported state (nil), so re-applying an unchanged document plans pipeline/connector updates for ever", true)
+		}
+	}
+}
+
+// c15R12: F34 (known finding). importPipeline changes the services' in-memory state while it writes through the
+// transaction; when it succeeded its own action rollback never runs, and a failing Commit only discards the store
+// side. transactionalImport has to compensate on the commit's failure edge (re-import the previous configuration,
+// reload the services, …) before it returns the error.
+func c15R12(c *Ctx) {
+	r := c.R.Rule("R12", "K4 a failed commit is a failed import: behind the failure edge of txn.Commit in transactionalImport the in-memory configuration is restored (a compensating call into the provisioning service) before the error is returned", 1)
+	fn := c.SSA(r, pProv, "(*Service).transactionalImport")
+	commit := c.W.ExtMethod("github.com/conduitio/conduit-commons/database", "Transaction", "Commit")
+	if fn == nil || commit == nil {
+		c.R.Unresolved(r, "transactionalImport / Transaction.Commit")
+		return
+	}
+	calls := kit.CallsTo(fn, c.Fam(commit))
+	if len(calls) == 0 {
+		c.R.Fail(r, "transactionalImport: commits the transaction", c.Pos(fn.Pos()), "no txn.Commit call found")
+		return
+	}
+	for _, call := range calls {
+		compensated := false
+		for _, e := range kit.FailEdges(call) {
+			for _, b := range fn.Blocks {
+				if !(b == e.To || e.To.Dominates(b)) {
+					continue
+				}
+				for _, in := range b.Instrs {
+					if ci, ok := in.(ssa.CallInstruction); ok {
+						if f := ci.Common().StaticCallee(); f != nil && f.Pkg == fn.Pkg && f.Signature.Recv() != nil {
+							compensated = true
+						}
+					}
+				}
+			}
+		}
+		c.R.Check(compensated, r, "transactionalImport: a failed commit restores the in-memory configuration", c.Pos(call.Pos()), "compensated", "behind the failure edge of txn.Commit transactionalImport only returns the error: importPipeline has already changed the pipeline/connector/processor services in memory, the deferred Discard undoes the store only — the failed apply leaves Export/Plan/the next Start on a configuration that was never stored (a retry is a no-op, a restart silently reverts)", true)
+	}
 }
